@@ -23,11 +23,11 @@ GROUPS["reader_step"] = {
                 "                    #[cfg(kani)]\n                    verif_reader::pre_read_assert(self);\n")],
     "params_crates": ["flussab"],
     "params": {
-        "quick": {"CAP": 6, "MAXCHUNK": 2, "MAXREQ": 3, "SCAP": 12},
-        "thorough": {"CAP": 10, "MAXCHUNK": 4, "MAXREQ": 5, "SCAP": 20},
+        "quick": {"CAP": 8, "MAXCHUNK": 2, "MAXREQ": 6, "SCAP": 16},
+        "thorough": {"CAP": 12, "MAXCHUNK": 4, "MAXREQ": 9, "SCAP": 26},
     },
     "timeout": {"quick": 1500, "thorough": 5400},
-    "flags": ["--default-unwind", "8"],
+    "flags_tier": {"quick": ["--default-unwind", "8"], "thorough": ["--default-unwind", "11"]},
     "harnesses": [
         ("step_request_more", {"props": ["C02", "C09", "C10", "C14", "C01"], "cost": 9,
                                "what": "one request_more from any Inv-state: window content, position, mark, flags, one read, buffer size bound"}),
@@ -448,7 +448,7 @@ PROPERTIES["C02"] = {
 
 PROPERTIES["C14"] = {
     "level": "model_checking",
-    "groups": ["reader_step", "writer_step"],
+    "groups": ["reader_step", "writer_step", "text_t0", "btor2_token_t0"],
     "claim": "Bounded model checking of the real unsafe reader/writer code with CBMC's pointer, bounds and validity checks enabled, from arbitrary invariant-satisfying states (so call histories are covered by induction); the state is additionally checked AT the point where each documented panic diverges, which is what a caller observes after catch_unwind.",
     "level_note": "Panic paths cannot be continued in Kani, so 'after a caught panic' is encoded as 'the memory-safety invariant holds at the panic point' via cfg(kani) hooks injected into the scratch copy; bounds as for C02/C11; AddressSanitizer runs are outside this technique.",
     "functions": ["DeferredReader::{advance, advance_cold, advance_with_buf, request_more (load-bearing assert), buf, buf_ptr, request_byte_at_offset}"],
@@ -472,18 +472,93 @@ PROPERTIES["C07"] = {
 
 PROPERTIES["C06"] = {
     "level": "model_checking",
-    "groups": ["cnf_token_t0", "aiger_token_t0", "text_t0"],
+    "groups": ["cnf_token_t0", "aiger_token_t0", "aiger_token_small", "btor2_token_t0", "btor2_token_wide", "text_t0", "cnf_parser_t2", "aiger_ascii_t2", "aiger_binary_t2"],
     "claim": "SAT-based bounded model checking of the real number/limit tokenizers on a fully symbolic window against an independent wide-arithmetic reference: a token is accepted iff it is a representable number word within the stated limit, and the returned number equals the decimal number written; T1/T2 harnesses (where present) decide clause-count gating and limit installation from symbolic parser states.",
     "level_note": "Token-level (window N bytes). The optimised digit scanners are replaced by their specification in the quick tier (justified by C13, which proves the real scanners meet it) and run for real in the thorough tier. Message formatting and UTF-8 validation of message text are stubbed (outside the claim).",
-    "functions": ["flussab_cnf::token::{uint, int, braced_uint, var_count, uint_count, clause_group}", "flussab::text::{ascii_digits, signed_ascii_digits}"],
+    "functions": ["flussab_cnf::token::{uint, int, braced_uint, var_count, uint_count, clause_group}", "flussab_cnf::cnf::Parser::{new, parse_header, next_clause}", "flussab_aiger::token::{uint, binary_uint, delta_code, header_field, lit, symbol_index}", "flussab_aiger::{ascii,binary}::{Header::parse, Parser::new, ParseSymbols::next_symbol}", "flussab_btor2::token::{uint, positive_int, nonnegative_int, required_*_constant}", "flussab::text::{ascii_digits, signed_ascii_digits}"],
     "explanation": "Each harness runs the real token function and compares acceptance, value and consumed bytes with a reference reading of the same window in u128 arithmetic; limits are symbolic.",
     "bounds_note": "N-byte window",
     "outside": ["error message text", "numbers longer than N bytes at token level (full-width overflow is C13's continuation harnesses)"],
     "assumptions": ["reader model R over-approximates the real reader (C02)", "digit-scanner specification (C13)"],
 }
 
+_COMPOSED_NOTE = "Decided compositionally: every link is a SAT-based bounded model check of real code (reader steps on the real DeferredReader; tokenizers on the reader model R whose soundness is the C02 check; parser control logic over contract stubs that the tokenizer harnesses justify); the composition of the links into whole documents is an induction over operations/tokens written down in DESIGN.md, not a solver run. Whole-parser symbolic execution is out of reach (DESIGN.md section 1)."
+
+PROPERTIES["C01"] = {
+    "level": "other",
+    "groups": ["reader_step", "text_t0", "btor2_token_t0", "btor2_token_wide", "aiger_token_t0", "cnf_token_t0"],
+    "audits": ["observation_sites"],
+    "claim": "Schedule independence by composition: (1) the real reader exposes exactly the stream for every read schedule, chunk size and Interrupted pattern (C02 step harnesses incl. mark rebase); (2) a syntactic audit regenerated on every run lists every place where parser-side code observes the AMOUNT of buffered data; (3) for each such place a SAT-based harness proves the result is the same for every buffered amount and refill schedule (optimised == simple digit scanners, BTOR2 keyword scanner fast == cold == reference, AIGER comment section); every other tokenizer harness also runs with nondeterministic refills.",
+    "level_note": _COMPOSED_NOTE + " Error message text is outside.",
+    "functions": ["DeferredReader::{request_more, request, request_byte_at_offset, set_mark, mark}", "flussab::text::{ascii_digits_multi, signed_ascii_digits_multi, swar_ascii_digits_u64_le}", "flussab_btor2::token::{ascii_lowercase_u64, ascii_lowercase_u64_cold, ascii_lowercase}", "flussab_aiger::token::remaining_file_content"],
+    "explanation": "See claim; the reader model's refill sizes are solver variables, so one harness covers every partition of the input into read results.",
+    "bounds_note": "as C02, C13; token windows N bytes",
+    "outside": ["document-level induction (paper)", "error message text"],
+    "assumptions": ["parsers touch the input only through the DeferredReader API (enforced by Rust privacy)"],
+}
+
+PROPERTIES["C04"] = {
+    "level": "other",
+    "groups": ["reader_step", "text_t0", "cnf_token_t0", "aiger_token_t0", "btor2_token_t0", "cnf_parser_t2"],
+    "claim": "I/O-error reporting by composition: (1) reader step with a terminal error: the delivered prefix is exposed as complete input, the error is parked once, no further reads; (2) LineReader::give_up*: a parked I/O error always wins over a syntax error; (3) every tokenizer harness runs with a possibly failing source and asserts that a parked error is never lost or invented, that every eof token succeeds only if the source did not fail, and that the end-of-input acceptors that bypass eof (AIGER comment section, BTOR2 comment body) do not hand out a value cut short by the failure; (4) T2: a clean end is reached only through the eof token.",
+    "level_note": _COMPOSED_NOTE,
+    "functions": ["DeferredReader::request_more", "LineReader::{give_up, give_up_at}", "{cnf,aiger,btor2}::token::eof", "flussab_aiger::token::{remaining_line_content, remaining_file_content}", "flussab_btor2::token::comment_body", "cnf::Parser::next_clause"],
+    "explanation": "The reader model has a `fault` flag: the delivered prefix ends with a parked error instead of EOF; `check_error_not_lost` is asserted after every token function.",
+    "bounds_note": "fault offset = any window length <= N",
+    "outside": ["document-level induction (paper)", "T2 for wcnf/gcnf/solver log/AIGER sections/BTOR2 next_line (token-level only)"],
+    "assumptions": ["reader model R (C02)"],
+}
+
+PROPERTIES["C05"] = {
+    "level": "model_checking",
+    "groups": ["text_t0", "cnf_token_t0", "aiger_token_t0", "aiger_token_small", "btor2_token_t0", "btor2_token_wide", "cnf_parser_t2", "aiger_ascii_t2", "aiger_binary_t2"],
+    "claim": "Panic/overflow/termination freedom per unit: every harness of the tokenizer and parser-control tiers is checked by CBMC with Rust's checked semantics (arithmetic overflow, slice bounds, unwrap/expect, debug assertions are verification conditions) and with unwinding assertions (every scanner loop exits within the window), from symbolic LineReader/parser states, so error-location arithmetic (position - line_start, count - 1, (I+1)*2, limit -= count) is covered for all values.",
+    "level_note": "Absence of overflow in the checked build implies the unchecked build computes the same values. Memory-allocation bounds are OUTSIDE: symbolic allocation sizes exhaust CBMC (the AIGER pre-allocation defect D6 was found by reading and fixed, no check reports it). Stack depth: no recursion in the parsers (not checked by the solver). T2 coverage: cnf next_clause/new, AIGER Header::parse/Parser::new/next_symbol; other control logic only at token level.",
+    "functions": ["all token functions of the three format crates", "flussab::text::*", "cnf::Parser::{new,next_clause}", "aiger::{ascii,binary}::{Header::parse, Parser::new, next_symbol}"],
+    "explanation": "Kani's default checks in every harness; dedicated assertions for line/column arithmetic.",
+    "bounds_note": "token windows N bytes; parser states fully symbolic within their invariant",
+    "outside": ["allocation bounds / heap exhaustion", "stack depth", "inputs longer than the window except through inductive pre-states"],
+    "assumptions": ["reader model R (C02)", "token contracts for T2"],
+}
+
+PROPERTIES["C08"] = {
+    "level": "other",
+    "groups": ["reader_step", "text_t0", "cnf_token_t0", "cnf_token_small", "aiger_token_t0", "aiger_token_small", "btor2_token_t0"],
+    "claim": "Error locations by composition: (1) LineReader invariant (line >= 1, line_start <= position) is preserved by every token function and `line` grows by exactly the number of LF consumed with line_start just after the last one (SAT-checked per function on a symbolic window); (2) every error-producing token function reports line == current line and column == offset of the offending token - line_start + 1 (range errors via the mark, unexpected-token errors at the cursor), with a symbolic absolute base so large offsets are covered; (3) the reader keeps the mark at the same absolute offset across refills/realign (C02).",
+    "level_note": _COMPOSED_NOTE + " The single-token corruption catalogue of the property is represented by the error branches of the token functions.",
+    "functions": ["LineReader::{line_at_offset, give_up, give_up_at}", "all error-producing token functions of cnf/aiger/btor2", "DeferredReader::{set_mark, mark, request_more}"],
+    "explanation": "check_line_tracking / check_loc_at in the harness prelude.",
+    "bounds_note": "window N bytes; base position < usize::MAX/2",
+    "outside": ["document-level induction (paper)"],
+    "assumptions": ["reader model R (C02)"],
+}
+
+PROPERTIES["C09"] = {
+    "level": "other",
+    "groups": ["reader_step", "text_t0", "cnf_token_t0", "aiger_token_t0", "btor2_token_t0", "btor2_token_wide", "cnf_parser_t2", "aiger_ascii_t2", "aiger_binary_t2"],
+    "claim": "No read past the completing line, by composition: (1) reader: exactly one successful read per refill, none when buffered data suffices or after end/error (C02 step harnesses on the real reader); (2) tokenizers: a ghost high-water mark of requested offsets proves that line-terminating tokens request nothing beyond the LF and every other token at most one byte beyond itself (fast paths read only buffered bytes); (3) T2: item-returning parser functions return right after the terminating token.",
+    "level_note": _COMPOSED_NOTE,
+    "functions": ["DeferredReader::{request_more, request, request_byte_at_offset}", "line-terminating tokens of cnf/aiger/btor2", "cnf::Parser::next_clause", "aiger Header::parse / next_symbol"],
+    "explanation": "m_hw ghost counter in the reader model; CALLS_AFTER_TERMINATOR ghost in the token stubs.",
+    "bounds_note": "as C02; window N",
+    "outside": ["document-level induction (paper)", "T2 for the remaining section readers and BTOR2 next_line"],
+    "assumptions": ["reader model R (C02)"],
+}
+
+PROPERTIES["C10"] = {
+    "level": "model_checking",
+    "groups": ["reader_step"],
+    "claim": "Claimed for the reader (the anchored mechanism): one inductive step of the real request_more from an arbitrary state: the buffer never grows beyond max(old size, cursor' + window + chunk), realign happens iff the cursor is more than two chunks into the buffer (then the cursor returns to 0), shrink at least halves an oversized buffer, no other operation changes the buffer size. By induction the buffer is bounded by the largest look-ahead plus a constant number of chunks, independent of the bytes processed.",
+    "level_note": "Parser-owned buffers (lit_buf, node_buf, ...) and real heap measurement are outside the solver's reach; Vec's amortised growth is trusted.",
+    "functions": ["DeferredReader::request_more", "advance*", "set_*"],
+    "explanation": "Post-conditions on buf.len() in step_request_more and the cursor-movement harnesses.",
+    "bounds_note": "as C02",
+    "outside": ["parser-owned buffers", "heap measurement"],
+    "assumptions": ["as C02"],
+}
+
 NOT_APPLICABLE = {
     "C12": "AIG renumbering is one explicit-stack DFS over std HashMaps with no smaller unit; Kani does not finish symbolic execution even for a 1-gate circuit (>15 min, see DESIGN.md section 1 and C12); a MIR executor is out of reach of this task. Not switching technique.",
 }
-for _pid in ["C01","C03","C04","C05","C06","C07","C08","C09","C10","C11","C13","C14","C15","C16"]:
+for _pid in ["C03"]:
     NOT_APPLICABLE.setdefault(_pid, "check under construction in this session (see DESIGN.md section 7); not yet claimed")
